@@ -141,6 +141,11 @@ type Scenario struct {
 	// SelectOrder fixes the poll order of Go's select statements for the whole execution (the runtime's random
 	// order is a source of nondeterminism the harness owns): 0/1 = source order, 2 = last case first.
 	SelectOrder int `json:"selectOrder,omitempty"`
+	// WakeFirst selects the second internal scheduling policy for the whole execution: a goroutine that makes another
+	// one runnable (channel hand-off, close, semaphore release) yields to it at once instead of running on to its own
+	// next blocking point (runtime patch, see tools/mkoverlay.sh). Between two visible operations the engine's
+	// goroutines then interleave in the opposite order.
+	WakeFirst bool `json:"wakeFirst,omitempty"`
 	// GateSetup gates the storage operations of Submit as well.
 	GateSetup bool `json:"gateSetup,omitempty"`
 }
@@ -230,6 +235,9 @@ func (s *Scenario) DSL() string {
 		parts = append(parts, p.DSL())
 	}
 	out := strings.Join(parts, " || ")
+	if s.WakeFirst {
+		out += " [wake-first]"
+	}
 	if len(s.Threads) > 0 {
 		var ts []string
 		for _, t := range s.Threads {
